@@ -308,3 +308,81 @@ fn leaf_byteorder_rw() {
         assert!(r.is_err());
     }
 }
+
+// ---------------------------------------------------------------------------------------------
+// Small scalar model for the bounded twins: a scalar with its abstract value next to its encoding
+#[derive(Clone, Copy)]
+pub struct Sc {
+    pub kind: u8,   // 0 null, 1 true, 2 false, 3 number, 4 string
+    pub num: i32,   // value for numbers (menu: small signed, small unsigned, the float 1.0 / 2.0)
+    pub s: [u8; 2], // string bytes
+    pub slen: usize,
+    pub it: It,     // README encoding of this scalar as an element
+}
+
+/// menu of scalars: null | true | false | Int64 in i8 range | UInt64 in u8 range | Float64 1.0 or 2.0 | string of <= 2 ASCII bytes.
+/// Numbers of equal value come in encodings of different widths (2 bytes vs 9 bytes).
+pub fn any_sc() -> Sc {
+    let k: u8 = kani::any();
+    kani::assume(k < 7);
+    let mut pay = [0u8; PAYMAX];
+    let mut sc = Sc { kind: 0, num: 0, s: [0; 2], slen: 0, it: It { word: T_NULL, pay, plen: 0 } };
+    match k {
+        0 => {}
+        1 => { sc.kind = 1; sc.it.word = T_TRUE; }
+        2 => { sc.kind = 2; sc.it.word = T_FALSE; }
+        3 => {
+            let v: i8 = kani::any();
+            kani::assume(v != 0);
+            pay[0] = 0x40; pay[1] = v as u8;
+            sc.kind = 3; sc.num = v as i32; sc.it = It { word: T_NUMBER | 2, pay, plen: 2 };
+        }
+        4 => {
+            let v: u8 = kani::any();
+            kani::assume(v != 0);
+            pay[0] = 0x50; pay[1] = v;
+            sc.kind = 3; sc.num = v as i32; sc.it = It { word: T_NUMBER | 2, pay, plen: 2 };
+        }
+        5 => {
+            // 1.0 = 3FF0000000000000, 2.0 = 4000000000000000
+            let two: bool = kani::any();
+            pay[0] = 0x60;
+            if two { pay[1] = 0x40; sc.num = 2; } else { pay[1] = 0x3F; pay[2] = 0xF0; sc.num = 1; }
+            sc.kind = 3; sc.it = It { word: T_NUMBER | 9, pay, plen: 9 };
+        }
+        _ => {
+            let l: usize = kani::any();
+            kani::assume(l <= 2);
+            let c0: u8 = kani::any(); let c1: u8 = kani::any();
+            kani::assume(c0 < 0x80 && c1 < 0x80);
+            if l > 0 { pay[0] = c0; sc.s[0] = c0; }
+            if l > 1 { pay[1] = c1; sc.s[1] = c1; }
+            sc.kind = 4; sc.slen = l; sc.it = It { word: T_STRING | l as u32, pay, plen: l };
+        }
+    }
+    sc
+}
+
+fn sc_level(s: &Sc) -> u8 {
+    // documented ranking: Null > (containers) > String > Number > true > false
+    match s.kind { 0 => 7, 4 => 4, 3 => 3, 1 => 2, _ => 1 }
+}
+
+/// the documented order on scalars: -1 / 0 / 1
+pub fn sc_cmp(a: &Sc, b: &Sc) -> i8 {
+    let (la, lb) = (sc_level(a), sc_level(b));
+    if la != lb { return if la < lb { -1 } else { 1 }; }
+    match a.kind {
+        3 => if a.num < b.num { -1 } else if a.num > b.num { 1 } else { 0 },
+        4 => {
+            let mut i = 0;
+            while i < 2 {
+                if i >= a.slen || i >= b.slen { break; }
+                if a.s[i] != b.s[i] { return if a.s[i] < b.s[i] { -1 } else { 1 }; }
+                i += 1;
+            }
+            if a.slen < b.slen { -1 } else if a.slen > b.slen { 1 } else { 0 }
+        }
+        _ => 0,
+    }
+}
